@@ -127,6 +127,40 @@ func branchGateway() (*gateway.Gateway, error) {
 	return gateway.New([]*graphql.RemoteSchema{{Schema: a, URL: "a"}, {Schema: b, URL: "b"}}, gateway.WithLogger(quietLogger{}))
 }
 
+// abstract types: unions (which have no fields of their own, only __typename) and an interface,
+// their members split over two services
+func abstractGateway() (*gateway.Gateway, error) {
+	a, err := graphql.LoadSchema(`type Query { pets: [Pet] search(term: String): [Result!]! named: [Named] node(id: ID!): Node }
+union Pet = Cat | Dog
+union Result = Cat | Owner
+interface Node { id: ID! }
+interface Named { name: String }
+type Cat implements Node & Named { id: ID! name: String owner: Owner }
+type Dog implements Node & Named { id: ID! name: String }
+type Owner implements Node & Named { id: ID! name: String }`)
+	if err != nil {
+		return nil, err
+	}
+	b, err := graphql.LoadSchema(`type Query { ping: String node(id: ID!): Node }
+interface Node { id: ID! }
+type Cat implements Node { id: ID! lives: Int }
+type Owner implements Node { id: ID! email: String }`)
+	if err != nil {
+		return nil, err
+	}
+	return gateway.New([]*graphql.RemoteSchema{{Schema: a, URL: "a"}, {Schema: b, URL: "b"}}, gateway.WithLogger(quietLogger{}))
+}
+
+var abstractQueries = []string{
+	`{ pets { __typename } }`,
+	`{ pets { kind: __typename ... on Cat { name lives } ... on Dog { name } } }`,
+	`{ search(term: "x") { __typename ... on Owner { email } } }`,
+	`{ pets { ... on Cat { __typename owner { __typename email } } } }`,
+	`query Q($t: String) { search(term: $t) { ...R } } fragment R on Result { __typename ... on Cat { lives } }`,
+	`{ named { __typename name ... on Cat { lives } ... on Owner { email } } }`,
+	`{ named { ...N } pets { ...P } } fragment N on Named { __typename name } fragment P on Pet { __typename ... on Named { name } }`,
+}
+
 // k aliased selections of users, each crossing to the other service, nested depth levels deep
 func branchQuery(k, depth int) (string, string) {
 	var q strings.Builder
@@ -184,6 +218,11 @@ func runC08(cfg *runCfg) error {
 		if err != nil {
 			return err
 		}
+		if cs.Kind == "abstract-types" {
+			if gw, err = abstractGateway(); err != nil {
+				return err
+			}
+		}
 		if cs.Fed != nil {
 			st := genStore(rand.New(rand.NewSource(int64(cs.Salt))), cs.Fed, false)
 			fed, ferr := NewFed(cs.Fed, st, rand.New(rand.NewSource(int64(cs.Salt))))
@@ -227,6 +266,17 @@ func runC08(cfg *runCfg) error {
 			model := fmt.Sprintf("plan_outcome_agrees (%s) %s %d", tree, coqBool(o.Class == 0), o.Steps)
 			emit(cs, o, model, expect)
 		}
+	}
+	// (a') unions and interfaces whose members live at two services
+	agw, err := abstractGateway()
+	if err != nil {
+		return fmt.Errorf("the federation with abstract types does not build: %v", err)
+	}
+	for _, q := range abstractQueries {
+		q := q
+		cs := &c08Case{Kind: "abstract-types", Query: q, Valid: true}
+		o := c08Run(func() (gateway.QueryPlanList, error) { return agw.GetPlans(&gateway.RequestContext{Query: q}) })
+		emit(cs, o, "true", 0)
 	}
 	// (b)-(d) generated federations
 	for i := 0; i < n; i++ {
